@@ -655,6 +655,39 @@ func ruleFrameStepOrder(p *Prog, r *Out) {
 		r.check(oka && okb && pa < pb, "step "+a+" before "+b, p.pos(clause.Pos()), a+" < "+b,
 			fmt.Sprintf("in the stream loop's frame clause the step `%s` no longer precedes `%s` (found: %v, %v): the per-frame state machine runs its steps in another order (e.g. a request dispatched before its frame was validated, or a stream swept before its state was updated)", a, b, oka, okb))
 	}
+	// once a frame went through handleFrame the iteration runs to the graceful-close test:
+	// no `continue` of the stream loop between the two
+	if hfPos, ok := pos["handleFrame"]; ok {
+		skip := ""
+		var walk func(n ast.Node, inner bool)
+		walk = func(n ast.Node, inner bool) {
+			ast.Inspect(n, func(m ast.Node) bool {
+				switch x := m.(type) {
+				case *ast.FuncLit:
+					return false
+				case *ast.ForStmt:
+					if m != n {
+						walk(x.Body, true)
+						return false
+					}
+				case *ast.RangeStmt:
+					if m != n {
+						walk(x.Body, true)
+						return false
+					}
+				case *ast.BranchStmt:
+					if x.Tok == token.CONTINUE && x.Pos() > hfPos && (!inner || x.Label != nil) {
+						skip = p.pos(x.Pos())
+					}
+				}
+				return true
+			})
+		}
+		for _, st := range clause.Body {
+			walk(st, false)
+		}
+		r.check(skip == "", "a handled frame always reaches the graceful-close test", p.pos(clause.Pos()), "no continue after handleFrame", "after handleFrame the iteration can be abandoned with `continue` at "+skip+": the closed-stream sweep and the `closing && every promised stream finished` test are skipped on that path, so after a GOAWAY the connection is not closed when its last promised stream finishes there, and Serve never returns while the peer stays silent")
+	}
 	// response: HEADERS encoded and queued before DATA
 	fr := p.decl("(*serverConn).finishRequest")
 	if fr == nil {
